@@ -148,9 +148,22 @@ def shapes(traces):
     """How far the recorded histories went beyond the exhaustive instances (maxima over all recorded states)."""
     mx = {'paths_denoting': 0, 'links': 0, 'layers_in_one_map': 0, 'handles_cached': 0, 'loads_of_one_handle': 0,
           'snapshot_entries': 0, 'key_depth_denoting': 0}
-    n = {'staged_moves': 0, 'composite_keys_set': 0, 'load_faults': 0, 'shadowed_handles': 0, 'reloads': 0}
+    n = {'staged_moves': 0, 'composite_keys_set': 0, 'load_faults': 0, 'shadowed_handles': 0, 'reloads': 0,
+         'stored_again_where_it_was': 0, 'reads_of_a_snapshot_older_than_its_map': 0}
     for t in traces:
+        before, changed = set(), False      # places listed before the call; the tree changed since the snapshot was taken
         for e in t['events']:
+            if e['op'] == 'Snapshot':
+                changed = False
+            elif e['op'] in ('SetItem', 'PushLayer', 'Clear'):
+                changed = True
+            elif e['op'] in ('SAttr', 'SItem', 'SGet'):
+                n['reads_of_a_snapshot_older_than_its_map'] += changed
+            now = {(x[0], x[1], x[3]) for x in e['links']}
+            if e['op'] == 'SetItem':
+                was = {x for x in before if x[2] == e['a3']}
+                n['stored_again_where_it_was'] += bool(was) and was == {x for x in now if x[2] == e['a3']}
+            before = now
             mx['paths_denoting'] = max(mx['paths_denoting'], len(e['den']))
             mx['links'] = max(mx['links'], len(e['links']))
             mx['layers_in_one_map'] = max([mx['layers_in_one_map']] + [len(ls) for _m, ls in e['layers']])
